@@ -94,7 +94,7 @@ def gen_options(rng, dims):
     """(options dict, class label).  show_progress always False."""
     o = {"show_progress": False}
     r = rng.random()
-    if r < 0.04:
+    if r < 0.06:
         # an explicitly EMPTY per-call dictionary means "all defaults"; solverun.call_entry poisons the global
         # solvers.options for the duration of such a call, so a solver that falls back to them shows up here
         return {}, "empty-dict"
@@ -110,11 +110,14 @@ def gen_options(rng, dims):
     if r < 0.82:
         o["refinement"] = rng.choice([0, 1, 2])
         return o, "refinement"
-    if r < 0.95:
+    if r < 0.92:
         o["maxiters"] = rng.choice([1, 2, 3, 5, 8, 12, 30])
         return o, "maxiters"
-    o["abstol"] = rng.choice([0.0, -1.0]); o["reltol"] = 1e-6     # only the relative criterion active
-    return o, "relonly"
+    if rng.random() < 0.5:
+        o["abstol"] = rng.choice([0.0, -1.0]); o["reltol"] = 1e-6     # only the relative criterion active
+        return o, "relonly"
+    o["reltol"] = rng.choice([0.0, 0]); o["abstol"] = rng.choice([1e-7, 1e-9])      # only the absolute criterion active
+    return o, "absonly"
 
 
 def pick_kkt(rng, dims, pr, allow_callable=True):
@@ -252,6 +255,12 @@ def run_conelp_family(ctx, judge_status, mix, with_backends=True, op_fraction=0.
         # tolerance below the regularisation level asks for more than the regularised system can deliver
         if kkt_label == "ldl" and rng.random() < 0.15 and not backend and oclass in ("default", "refinement", "maxiters"):
             opts = dict(opts); opts["kktreg"] = rng.choice([1e-10, 1e-9]); oclass += "+kktreg"
+        if kind == "shortcut" and not backend and oclass in ("default", "refinement") and rng.random() < 0.4:
+            # a regularisation ABOVE the tolerances on a problem whose least-squares start is already optimal: the KKT
+            # solves are then inexact by ~kktreg, and only recomputed residuals may lead to 'optimal'
+            kkt, kkt_label = "ldl", "ldl"
+            opts = dict(opts); opts["kktreg"] = rng.choice([1e-6, 1e-4, 1e-3]); oclass += "+kktreg-large"
+            ctx.count("shortcut.kktreg-large")
         via_kwarg = rng.random() < 0.5
         c.desc.update({"entry": entry, "kind": kind, "dims": d.key(), "n": pr.n, "p": pr.p, "kkt": kkt_label,
                        "start": start, "opts": {k: v for k, v in opts.items() if k not in ("glpk", "dsdp")},
@@ -582,7 +591,11 @@ def run_classification(ctx, second_path=True):
             kind = "feasible"
         if isqp:
             if kind == "feasible":
-                pr = gen_qp_instance(rng, entry)
+                # one QP in ten has no inequality constraints (coneqp's direct one-solve branch)
+                noineq_ = rng.random() < 0.1
+                pr = gen_qp_instance(rng, entry, noineq=noineq_)
+                if noineq_ and pr is not None:
+                    ctx.count("qp.no-inequalities")
             else:
                 base_entry = "lp" if entry == "qp" else "conelp"
                 pr = gen_instance(rng, base_entry, "pinf")
@@ -660,6 +673,11 @@ def run_classification(ctx, second_path=True):
             lo = pl["d"] - (R["resz"] * cone.snrm2(pl["z"], d) + R["resy"] * float(np.linalg.norm(pl["y"]))) - 1e-9 * (1 + abs(pl["d"]))
             # upper bound on dcost:  dcost <= p_pl + (dual residual terms)     [weak duality with planted primal point]
             hi = pl["p"] + R["resx"] * float(np.linalg.norm(pl["x"] - x)) + 1e-9 * (1 + abs(pl["p"]))
+            if st == "optimal":
+                # "its objective agrees with every other solver path and with the weak-duality bounds": the REPORTED
+                # objectives are the ones a caller compares, so they must be the recomputed ones
+                J.field_eq(sol, "primal objective", R["pcost"], max(R["pcost_scale"], 1e-300))
+                J.field_eq(sol, "dual objective", R["dcost"], max(R["dcost_scale"], 1e-300))
             if st == "optimal" or (R["pres"] <= 1e-5 and R["dres"] <= 1e-5):
                 J.req(R["pcost"] >= lo - 1e-7 * (1 + abs(R["pcost"])), "objective-below-planted-dual-bound",
                       "primal objective %.12g below the planted dual bound %.12g" % (R["pcost"], pl["d"]))
